@@ -22,6 +22,7 @@ import (
 	"reflect"
 	"regexp"
 	"sort"
+	"strconv"
 	"strings"
 
 	"github.com/anz-bank/sysl/pkg/sysl"
@@ -112,14 +113,28 @@ func (j *judge) checkType(t aType, sv interface{}, refPrefix, role, where string
 	case "prim":
 		wt, wf := primJSON(t.Prim)
 		if j.fmtName == "swagger" {
-			role = "any" // one root cause whatever the position: the primitive table of the Swagger exporter
+			role = "any" // one root cause whatever the position (used by prim-as-ref only)
+		}
+		// the one known way the Swagger primitive table is wrong: int -> number/integer, date(-time) -> string/string;
+		// any other wrong kind gets the key of its position
+		gotT, gotF := asStr(s["type"]), asStr(s["format"])
+		kindKey := role + "-kind:" + primClass(t.Prim)
+		if j.fmtName == "swagger" {
+			kindKey = "unexpected-kind:" + primClass(t.Prim)
+			switch pc := primClass(t.Prim); {
+			case pc == "int" && gotT == "number" && gotF == "integer", (pc == "date" || pc == "datetime") && gotT == "string" && gotF == "string":
+				kindKey = "any-kind:" + pc
+			}
 		}
 		if r := asStr(s["$ref"]); r != "" {
 			j.fail(role+"-prim-as-ref", "%s: primitive %s is written as a reference %s", where, t.Prim, r)
-		} else if asStr(s["type"]) != wt {
-			j.fail(role+"-kind:"+primClass(t.Prim), "%s: %s must be of JSON type %s, schema says type=%q format=%q", where, t.Prim, wt, asStr(s["type"]), asStr(s["format"]))
-		} else if wf != "" && asStr(s["format"]) != wf {
-			j.fail(role+"-kind:"+primClass(t.Prim), "%s: %s must have format %s, schema says format=%q", where, t.Prim, wf, asStr(s["format"]))
+		} else if gotT != wt {
+			j.fail(kindKey, "%s: %s must be of JSON type %s, schema says type=%q format=%q", where, t.Prim, wt, gotT, gotF)
+		} else if wf != "" && gotF != wf {
+			j.fail(kindKey, "%s: %s must have format %s, schema says format=%q", where, t.Prim, wf, gotF)
+		}
+		if _, has := s["properties"]; has {
+			j.fail("extra-content:properties-on-primitive", "%s: the schema of primitive %s has properties: %s", where, t.Prim, compact(s["properties"]))
 		}
 	case "ref":
 		if asStr(s["$ref"]) != refPrefix+t.Ref {
@@ -135,8 +150,15 @@ func (j *judge) checkType(t aType, sv interface{}, refPrefix, role, where string
 			opt = ":optional"
 		}
 		if asStr(s["type"]) != "array" {
-			j.fail(role+"-arrayness:"+t.Kind+opt, "%s: %s must be an array, schema is %v", where, typeText(t), compact(s))
+			key := role + "-arrayness:" + t.Kind + opt
+			if j.fmtName == "swagger" && role == "response" && !(asStr(s["$ref"]) == refPrefix+t.Elem.Ref+t.Elem.Prim && len(s) == 1) {
+				key = "response-arrayness-unexpected:" + t.Kind // not the known shape "$ref to the last word of the type text"
+			}
+			j.fail(key, "%s: %s must be an array, schema is %v", where, typeText(t), compact(s))
 			return
+		}
+		if _, has := s["properties"]; has {
+			j.fail("extra-content:properties-on-array", "%s: the array schema of %s has properties: %s", where, typeText(t), compact(s["properties"]))
 		}
 		it, ok := s["items"]
 		if !ok {
@@ -363,10 +385,6 @@ func wellFormed2(j *judge, jsonB []byte, doc map[string]interface{}) {
 					}
 				}
 			}
-			rs := asMap(asMap(opv)["responses"])
-			if len(rs) == 0 {
-				j.fail("not-well-formed:no-responses", "%s: an operation must have at least one response", where)
-			}
 		}
 	}
 }
@@ -431,8 +449,16 @@ func (j *judge) checkTypes(a aApp, schemas map[string]interface{}, refPrefix str
 			for _, e := range asList(s["enum"]) {
 				got[asStr(e)] = true
 			}
+			if _, has := s["properties"]; has {
+				j.fail("extra-content:properties-on-enum", "enum %s is exported with properties: %s", td.Name, compact(s["properties"]))
+			}
 			if _, has := s["enum"]; !has {
-				j.fail("enum-values:dropped", "enum %s is exported without its values: %s", td.Name, compact(s))
+				// the known shape of the Swagger exporter is exactly {type: number, format: integer}
+				if j.fmtName == "swagger" && !(len(s) == 2 && asStr(s["type"]) == "number" && asStr(s["format"]) == "integer") {
+					j.fail("enum-schema-unexpected", "enum %s is exported as %s", td.Name, compact(s))
+				} else {
+					j.fail("enum-values:dropped", "enum %s is exported without its values: %s", td.Name, compact(s))
+				}
 				continue
 			}
 			for _, e := range td.Enum {
@@ -445,15 +471,37 @@ func (j *judge) checkTypes(a aApp, schemas map[string]interface{}, refPrefix str
 			}
 		case "alias":
 			j.checkType(*td.Alias, sv, refPrefix, "alias", td.Name)
+			if _, has := s["properties"]; has && td.Alias.Kind == "ref" {
+				j.fail("extra-content:properties-on-alias", "alias %s = %s is exported with properties: %s", td.Name, typeText(*td.Alias), compact(s["properties"]))
+			}
 		}
 	}
 	names := map[string]bool{}
 	for _, td := range a.Types {
 		names[td.Name] = true
 	}
-	for k := range schemas {
-		if !names[k] {
-			j.fail("extra-schema", "the document defines a schema %s that is not a type of the application", k)
+	for k, sv := range schemas {
+		if names[k] {
+			continue
+		}
+		// the known extra definitions of the Swagger exporter: one per set / sequence attribute, under the attribute's
+		// name, holding that attribute's array schema and nothing else
+		explained := false
+		if j.fmtName == "swagger" {
+			for _, td := range a.Types {
+				for _, f := range td.Fields {
+					if f.Name == k && (f.T.Kind == "seq" || f.T.Kind == "set") {
+						sm := asMap(sv)
+						_, hasItems := sm["items"]
+						explained = explained || (asStr(sm["type"]) == "array" && hasItems && len(sm) == 2)
+					}
+				}
+			}
+		}
+		if explained {
+			j.fail("extra-schema", "the document defines a schema %s that is not a type of the application (copy of a set / sequence attribute)", k)
+		} else {
+			j.fail("extra-schema-unexpected", "the document defines a schema %s = %s that is neither a type of the application nor the copy of a set / sequence attribute", k, compact(sv))
 		}
 	}
 }
@@ -472,6 +520,7 @@ func (j *judge) checkEndpoints(a aApp, doc map[string]interface{}, refPrefix str
 			continue
 		}
 		byKey := map[string]map[string]interface{}{}
+		unnamedHeaders, bodyAsHeader, nAnon, missingHeaders, missingBodies := 0, 0, 0, 0, 0
 		var bodyParams []map[string]interface{}
 		for _, pv := range asList(op["parameters"]) {
 			p := asMap(pv)
@@ -480,8 +529,22 @@ func (j *judge) checkEndpoints(a aApp, doc map[string]interface{}, refPrefix str
 				continue
 			}
 			k := asStr(p["in"]) + "/" + asStr(p["name"])
+			if j.fmtName == "swagger" && asStr(p["name"]) == "" && asStr(p["in"]) == "header" {
+				// the known shapes: an unnamed header parameter (no name="..") and the body parameter written as header
+				if _, hasSchema := p["schema"]; hasSchema {
+					bodyAsHeader++
+				} else {
+					unnamedHeaders++
+				}
+				if byKey[k] != nil {
+					j.fail("duplicate-param", "%s lists parameter %s twice", where, k)
+				}
+				byKey[k] = p
+				nAnon++
+				continue
+			}
 			if byKey[k] != nil {
-				j.fail("duplicate-param", "%s lists parameter %s twice", where, k)
+				j.fail("duplicate-param-named", "%s lists parameter %s twice", where, k)
 			}
 			byKey[k] = p
 		}
@@ -503,7 +566,12 @@ func (j *judge) checkEndpoints(a aApp, doc map[string]interface{}, refPrefix str
 					reqV = bodyParams[0]["required"]
 				}
 				if !found {
-					j.fail("missing-body", "%s: body parameter %s <: %s is not exported as request body", where, p.Name, typeText(p.T))
+					missingBodies++
+					if j.fmtName == "swagger" && missingBodies > bodyAsHeader {
+						j.fail("missing-body-unexplained", "%s: body parameter %s <: %s is neither a request body nor the header parameter the exporter is known to write for it", where, p.Name, typeText(p.T))
+					} else {
+						j.fail("missing-body", "%s: body parameter %s <: %s is not exported as request body", where, p.Name, typeText(p.T))
+					}
 					continue
 				}
 				j.checkType(p.T, sch, refPrefix, "body", where+" body")
@@ -515,12 +583,26 @@ func (j *judge) checkEndpoints(a aApp, doc map[string]interface{}, refPrefix str
 			nWant++
 			got := byKey[p.In+"/"+p.Name]
 			if got == nil {
-				j.fail("missing-param:"+p.In, "%s: %s parameter %s <: %s is not among the parameters %s", where, p.In, p.Name, typeText(p.T), compact(op["parameters"]))
+				key := "missing-param:" + p.In
+				if j.fmtName == "swagger" {
+					// known only for header parameters, and only as many as there are unnamed header parameters
+					if p.In == "header" {
+						missingHeaders++
+					}
+					if p.In != "header" || missingHeaders > unnamedHeaders {
+						key = "missing-param-unexplained:" + p.In
+					}
+				}
+				j.fail(key, "%s: %s parameter %s <: %s is not among the parameters %s", where, p.In, p.Name, typeText(p.T), compact(op["parameters"]))
 				continue
 			}
 			wantReq := !p.T.Opt || p.In == "path"
 			if r, _ := got["required"].(bool); r != wantReq {
-				j.fail("param-required:"+p.In, "%s: %s parameter %s <: %s must have required=%v", where, p.In, p.Name, typeText(p.T), wantReq)
+				if r { // the known direction is "never required"; a parameter marked required that is optional is something else
+					j.fail("param-required-spurious:"+p.In, "%s: %s parameter %s <: %s is optional but marked required", where, p.In, p.Name, typeText(p.T))
+				} else {
+					j.fail("param-required:"+p.In, "%s: %s parameter %s <: %s must have required=%v", where, p.In, p.Name, typeText(p.T), wantReq)
+				}
 			}
 			if j.fmtName == "oas3" {
 				j.checkType(p.T, got["schema"], refPrefix, "param", where+" "+p.Name)
@@ -529,9 +611,30 @@ func (j *judge) checkEndpoints(a aApp, doc map[string]interface{}, refPrefix str
 			}
 		}
 		if len(byKey) > nWant {
-			j.fail("extra-param", "%s has %d non-body parameters, the document lists %d: %s", where, nWant, len(byKey), compact(op["parameters"]))
+			// known: the body parameter written as a header parameter is one non-body parameter too many
+			if j.fmtName == "swagger" && len(byKey)-nWant <= bodyAsHeader {
+				j.fail("extra-param", "%s has %d non-body parameters, the document lists %d: %s", where, nWant, len(byKey), compact(op["parameters"]))
+			} else {
+				j.fail("extra-param-unexplained", "%s has %d non-body parameters, the document lists %d: %s", where, nWant, len(byKey), compact(op["parameters"]))
+			}
 		}
+		_ = nAnon
 		resps := asMap(op["responses"])
+		if j.fmtName == "swagger" && len(resps) == 0 {
+			// known: every return the exporter keeps has a numeric status; an operation left without any is written
+			// with `responses: {}`.  An operation that HAS a numeric return and still no response is something else.
+			numeric := false
+			for _, r := range ep.Rets {
+				if _, err := strconv.Atoi(r.Name); err == nil {
+					numeric = true
+				}
+			}
+			if numeric {
+				j.fail("not-well-formed:no-responses-unexpected", "%s has numeric return statements but the operation has no response", where)
+			} else {
+				j.fail("not-well-formed:no-responses", "%s: an operation must have at least one response", where)
+			}
+		}
 		for _, r := range ep.Rets {
 			code := retCode(r.Name)
 			rv, ok := resps[code]
